@@ -19,8 +19,9 @@ ID = 'C19'
 LEVEL = 'exploration'
 RULE = (
     'File sets: 3 datasets (different numbers of rise and recession levels) '
-    'x 6 parameter files (spline with 4..7 Sy knots and 2..5 K knots, two '
-    'PEATCLSM sets) x {rise, curves}: the real `spowtd pestfiles ... '
+    'x 8 parameter files (spline with 4..7 Sy knots and 2..5 K knots, knots '
+    'with 7-10 significant digits, a spline whose overshoot makes the '
+    'simulated recession non-monotone, two PEATCLSM sets) x {rise, curves}: the real `spowtd pestfiles ... '
     'tpl|ins|pst` and `spowtd simulate rise|recession [--observations]` are '
     'run and read back with a small PEST-format reader written from the PEST '
     'manual.  Oracle: NPAR/NOBS/NPARGP/NOBSGP equal the section line counts; '
@@ -44,7 +45,8 @@ ASSUMPTIONS = [
 ]
 PARAMS = [('inside', 'field'), ('straddle-top', 'two-knots'),
           ('all-below', 'five-knots'), ('seven-knots', 'five-knots'),
-          ('published', 'published-high'), ('corner', 'other')]
+          ('published', 'published-high'), ('corner', 'other'),
+          ('long-digits', 'long-digits'), ('overshoot', 'field')]
 CURVATURE = 2.36
 MANT = '1234567890123456789'
 EXPONENTS = [-300, -100, -10, -5, -4, -3, -2, -1, 0, 1, 2, 5, 15, 16, 17, 22,
@@ -52,7 +54,7 @@ EXPONENTS = [-300, -100, -10, -5, -4, -3, -2, -1, 0, 1, 2, 5, 15, 16, 17, 22,
 
 
 def BOUND(tier):
-    return ('3 datasets x 6 parameter files x {rise, curves}; %d float '
+    return ('4 datasets x 8 parameter files x {rise, curves}; %d float '
             'format classes x {rise, recession} writers'
             % (2 * 17 * len(EXPONENTS)))
 
